@@ -206,11 +206,59 @@ cleanup_pthread:
 }
 
 
+/*
+ * Write what is queued, in the caller's thread.  The lock is held.  The
+ * tokens of these records stay on the semaphore: the thread finds the list
+ * empty when it takes them.
+ */
+static void
+_flush_queue_locked(void)
+{
+	struct qb_log_record *rec;
+	struct qb_log_record *next;
+
+	qb_list_for_each_entry_safe(rec, next, &logt_print_finished_records,
+				    list) {
+		qb_list_del(&rec->list);
+		logt_memory_used = logt_memory_used - strlen(rec->buffer) -
+		    sizeof(struct qb_log_record) - 1;
+		qb_log_thread_log_write(rec->cs, &rec->timestamp, rec->buffer);
+		free(rec->buffer);
+		free(rec);
+	}
+}
+
+/*
+ * A queued record is written to the targets that want its call site when
+ * it is written.  Whoever is about to change that - a target's state, its
+ * threaded switch, the filters - first has the queue written out the way it
+ * was logged, and keeps the thread out until the change is made.
+ */
+void
+qb_log_thread_quiesce(void)
+{
+	if (logt_wthread_lock != NULL) {
+		(void)qb_thread_lock(logt_wthread_lock);
+		_flush_queue_locked();
+	}
+}
+
+void
+qb_log_thread_quiesce_end(void)
+{
+	if (logt_wthread_lock != NULL) {
+		(void)qb_thread_unlock(logt_wthread_lock);
+	}
+}
+
 void
 qb_log_thread_pause(struct qb_log_target *t)
 {
 	if (t->threaded && logt_wthread_lock != NULL) {
 		(void)qb_thread_lock(logt_wthread_lock);
+		/* what was logged for the target as it was is written to it
+		 * as it was */
+		_flush_queue_locked();
 	}
 }
 
@@ -279,36 +327,13 @@ free_record:
 void
 qb_log_thread_stop(void)
 {
-	int res;
-	int value;
-	struct qb_log_record *rec;
-
 	if (wthread_active == QB_FALSE && logt_wthread_lock == NULL) {
 		return;
 	}
 	if (wthread_active == QB_FALSE) {
-		for (;;) {
-			res = sem_getvalue(&logt_print_finished, &value);
-			if (res != 0 || value == 0) {
-				break;
-			}
-			sem_wait(&logt_print_finished);
-
-			(void)qb_thread_lock(logt_wthread_lock);
-
-			rec = qb_list_first_entry(&logt_print_finished_records,
-					    struct qb_log_record, list);
-			qb_list_del(&rec->list);
-			logt_memory_used = logt_memory_used -
-					   strlen(rec->buffer) -
-					   sizeof(struct qb_log_record) - 1;
-
-			qb_log_thread_log_write(rec->cs, &rec->timestamp,
-						rec->buffer);
-			(void)qb_thread_unlock(logt_wthread_lock);
-			free(rec->buffer);
-			free(rec);
-		}
+		(void)qb_thread_lock(logt_wthread_lock);
+		_flush_queue_locked();
+		(void)qb_thread_unlock(logt_wthread_lock);
 	} else {
 		(void)qb_thread_lock(logt_wthread_lock);
 		wthread_should_exit = QB_TRUE;
